@@ -72,6 +72,35 @@ void* calloc(size_t nmemb, size_t size) {
   return &rec_store[rec_used++].r;
 }
 
+/* publication point of a new record: the compare-exchange on the list head inside the real create_and_push is routed
+ * through a checker function (macro redirect, library untouched) that performs the same compare-exchange and asserts what
+ * concurrent scanners rely on: the record that becomes the visible head already carries a retire_threshold of at
+ * least 2*N*K for the list it heads ("head always has a correct retired_threshold", hazard_pointer_scan sizes its snapshot from
+ * it).  With publish_may_fail set the weak CAS may also fail once spuriously (the loop must recompute and retry). */
+static int publish_may_fail, publish_failed, publish_count;
+_Bool nondet_bool(void);
+static int verif_publish_cas(_Atomic(hazard_pointer_thread_record_t*)* head, hazard_pointer_thread_record_t** expected,
+                             hazard_pointer_thread_record_t* desired) {
+  if (publish_may_fail && !publish_failed && nondet_bool()) {
+    publish_failed = 1;
+    return 0; /* spurious failure of the weak compare-exchange: *expected keeps the current head */
+  }
+  if (*head != *expected) {
+    *expected = *head;
+    return 0;
+  }
+  size_t n = 1;
+  for (hazard_pointer_thread_record_t* c = desired->next; c; c = c->next) ++n;
+  __CPROVER_assert(desired->next == *expected, "C14 registration: the new record links to the head it replaces");
+  __CPROVER_assert(desired->retire_threshold >= 2 * n * desired->hazard_pointers_count,
+                   "C14 registration: a record becomes the visible list head only with a retire_threshold of at least 2*N*K already set (scans size their snapshot from head->retire_threshold)");
+  *head = desired;
+  publish_count++;
+  return 1;
+}
+#undef atomic_compare_exchange_weak_explicit
+#define atomic_compare_exchange_weak_explicit(obj, exp, des, so, fo) verif_publish_cas((obj), (exp), (des))
+
 #include "hazard_pointer.c" /* real source */
 
 int nondet_int(void);
@@ -182,6 +211,22 @@ void h_threshold(void) {
 }
 
 /* ------------------------------------------------------------------ retired-list construction */
+/* registration with one spurious failure of the weak compare-exchange: same end state, exact threshold at publication */
+void h_publish(void) {
+  publish_may_fail = 1;
+  build_records();
+  __CPROVER_assert(publish_count == CFG_N, "every registration published exactly one record");
+  size_t len = 0;
+  for (hazard_pointer_thread_record_t* cur = g_head; cur; cur = cur->next) {
+    ++len;
+    __CPROVER_assert(cur->retire_threshold == 2 * (size_t)CFG_N * (size_t)CFG_K, "after N registrations (one weak-CAS failure allowed) every record has retire_threshold 2*N*K");
+  }
+  __CPROVER_assert(len == (size_t)CFG_N, "record list holds exactly the N registered records");
+#ifdef WITNESS
+  __CPROVER_assert(!publish_failed, "witness: end of harness reachable after a failed compare-exchange");
+#endif
+}
+
 static _Bool retired[PM]; /* ghost: pool[i] is currently retired (in the record's retired list) */
 
 static void prepare_node(unsigned j) {
